@@ -1,4 +1,5 @@
 CONSTANTS GRAPHS <- GraphsQ
+NORMALIZE = FALSE
 INIT Init
 NEXT Next
 INVARIANT InvNoPanic
